@@ -87,6 +87,28 @@ class PrefixEnum:
         return c
 
 
+class SymGen:
+    """generator expression over a sequence of symbolic length: `next()` yields seq[pos] and advances, StopIteration at the end"""
+
+    def __init__(self, seq, pos=0):
+        self.seq = seq
+        self.pos = pos
+
+    def __vnext__(self):
+        e = cur()
+        n = self.seq.n
+        more = lift(self.pos) < n
+        if isinstance(more, bool):
+            ok = more
+        else:
+            ok = e.branch(zb(more))
+        if not ok:
+            e.py_raise("StopIteration", "")
+        v = self.seq.get(self.pos)
+        self.pos = self.pos + 1
+        return v
+
+
 class SymSet:
     def __init__(self, mem):
         self.mem = mem      # value -> truth
@@ -1079,6 +1101,10 @@ class _NP:
                     e.py_raise("ValueError", "zero-size array to reduction operation")
                 return r
             # symbolic: witness + universal bound (D23); the extreme of pointwise-equal arrays is the same value
+            reg_same = eng_reg(e, "__extreme_same")
+            for (bid, ver, fw, w2, m2) in reg_same:
+                if bid == x.buf.id and ver == x.buf.writes and fw is x.fwd and w2 == which:
+                    return m2
             if x.ndim == 1:
                 reg = eng_reg(e, "__extreme")
                 for (n2, f2, w2, m2) in reg:
@@ -1096,6 +1122,7 @@ class _NP:
             e.axiom(z3.ForAll(qs, z3.Implies(rng, body)))
             if x.ndim == 1:
                 eng_reg(e, "__extreme").append((x.shape[0], (lambda k: f((k,))), which, m))
+            eng_reg(e, "__extreme_same").append((x.buf.id, x.buf.writes, x.fwd, which, m))
             return m
         if x.ndim == 2:
             ax = axis if axis >= 0 else axis + 2
@@ -1109,7 +1136,23 @@ class _NP:
             if isinstance(m, int):
                 vals = [one(j) for j in range(m)]
                 return from_nested(vals)
-            raise Unsupported("axis reduction with symbolic other dimension")
+            # symbolic number of rows (columns): one witness per row, facts instantiated when the element is read (D23)
+            wit = z3.Function(e.uniq("w_row" + which), z3.IntSort(), z3.IntSort())
+
+            def elem(idx):
+                j = idx[0]
+                jt = to_z3(j)
+                w = Num(wit(jt))
+                inb = z3.And(jt >= 0, jt < to_z3(m), to_z3(n) > 0)
+                at = (lambda c: f((c, j))) if ax == 0 else (lambda c: f((j, c)))
+                val = e.under(z3.And(inb, w.t >= 0, w.t < to_z3(n)), lambda: at(w), default=0)
+                e.axiom(z3.Implies(inb, z3.And(w.t >= 0, w.t < to_z3(n))))
+                q = z3.Int(e.uniq("rq"))
+                rng = z3.And(inb, q >= 0, q < to_z3(n))
+                body = e.under(rng, lambda: zb((lift(at(Num(q))) <= val) if which == "max" else (lift(at(Num(q))) >= val)))
+                e.axiom(z3.ForAll([q], z3.Implies(rng, body)))
+                return val
+            return Arr((m,), elem, dtype=x.kind)
         raise Unsupported("np.%s axis=%r" % (which, axis))
 
     def max(self, x, axis=None):
@@ -1135,7 +1178,17 @@ class _NP:
             if x.ndim == 2 and isinstance(x.shape[1], int):
                 w = x.shape[1]
                 return agg_all(e, x.shape[0], lambda k: b_and(*[e.as_bool(f((k, c))) for c in range(w)]))
-            raise Unsupported("np.all of %d-d symbolic" % x.ndim)
+            # general n-d: fresh Bool with both directions (witness index tuple for the negative case)
+            b = z3.Bool(e.uniq("all"))
+            qs = [z3.Int(e.uniq("aq%d" % a_)) for a_ in range(x.ndim)]
+            ws = [z3.Int(e.uniq("aw%d" % a_)) for a_ in range(x.ndim)]
+            rq = z3.And(*[z3.And(q >= 0, q < to_z3(d)) for q, d in zip(qs, x.shape)])
+            rw = z3.And(*[z3.And(w >= 0, w < to_z3(d)) for w, d in zip(ws, x.shape)])
+            body = e.under(rq, lambda: zb(e.as_bool(f(tuple(Num(q) for q in qs)))))
+            fw = e.under(rw, lambda: zb(e.as_bool(f(tuple(Num(w) for w in ws)))))
+            e.axiom(z3.Implies(b, z3.ForAll(qs, z3.Implies(rq, body))))
+            e.axiom(z3.Implies(z3.Not(b), z3.And(rw, z3.Not(fw))))
+            return BoolV(b)
         if x.ndim == 2 and axis in (1, -1) and isinstance(x.shape[1], int):
             w = x.shape[1]
             return Arr((x.shape[0],), lambda idx: b_and(*[e.as_bool(f((idx[0], c))) for c in range(w)]), dtype="bool")
@@ -1209,6 +1262,9 @@ class _NP:
     def unique(self, x, return_counts=False, axis=None):
         """D7: np.unique(x) for a 1-d array x = strictly increasing array of the distinct values of x"""
         if return_counts or axis is not None:
+            hooks = cur().contracts.get("__hooks", {})
+            if "unique_counts" in hooks:
+                return hooks["unique_counts"](x, return_counts=return_counts, axis=axis)
             raise Unsupported("np.unique with return_counts / axis: modular contract only")
         if not isinstance(x, Arr) or x.ndim != 1:
             raise Unsupported("np.unique of non 1-d")
@@ -1219,6 +1275,25 @@ class _NP:
         if getattr(x, "strictly_increasing", False):
             return x
         raise Unsupported("np.sort of an arbitrary array")
+
+    def iinfo(self, t):
+        name = getattr(t, "name", getattr(t, "__name__", str(t)))
+        bits = {"int8": 7, "int16": 15, "int32": 31, "int64": 63}.get(name)
+        if bits is None:
+            raise Unsupported("np.iinfo(%s)" % name)
+
+        class _I:
+            max = 2 ** bits - 1
+            min = -2 ** bits
+        return _I()
+
+    def tril_indices(self, n, k=0):
+        if not isinstance(n, int):
+            raise Unsupported("tril_indices of symbolic size")
+        rows = [i for i in range(n) for j in range(n) if j <= i + k]
+        cols = [j for i in range(n) for j in range(n) if j <= i + k]
+        return (from_nested(rows, dtype="int") if rows else Arr((0,), lambda idx: 0, dtype="int"),
+                from_nested(cols, dtype="int") if cols else Arr((0,), lambda idx: 0, dtype="int"))
 
     def pad(self, a, pad_width=None, **kw):
         """D15: zero padding (default mode 'constant')"""
@@ -1267,7 +1342,19 @@ class _NP:
 
     class _Random:
         def permutation(self, n):
-            raise Unsupported("np.random.permutation outside a contract")
+            """D11: a permutation of range(n) chosen by the global generator: entries in range, pairwise distinct"""
+            e = cur()
+            e.rng_calls.append("permutation")
+            uf = z3.Function(e.uniq("rng_perm"), z3.IntSort(), z3.IntSort())
+            inv = z3.Function(e.uniq("rng_perm_inv"), z3.IntSort(), z3.IntSort())
+
+            def fn(idx):
+                k = to_z3(idx[0])
+                e.axiom(z3.Implies(z3.And(k >= 0, k < to_z3(n)), z3.And(uf(k) >= 0, uf(k) < to_z3(n), inv(uf(k)) == k)))
+                return Num(uf(k))
+            a = Arr((n,), fn, dtype="int")
+            a.is_permutation = True
+            return a
 
         def choice(self, n):
             e = cur()
@@ -1678,6 +1765,19 @@ class PltProxy:
         return getattr(cur().ghost.setdefault("plt_rec", Recorder("plt")), m)
 
 
+class NeedsGhost:
+    """a library routine whose dependency contract is supplied by the contract module through the ghost state / hooks table"""
+
+    def __init__(self, name):
+        self.name = name
+
+    def __call__(self, *a, **k):
+        hooks = cur().contracts.get("__hooks", {})
+        if self.name not in hooks:
+            raise Unsupported("%s: no dependency contract installed" % self.name)
+        return hooks[self.name](*a, **k)
+
+
 class Opaque:
     """stand-in for a library object we never call into during interpretation"""
 
@@ -1766,6 +1866,11 @@ def _module_model(eng, name, module):
         return _Metrics()
     if name == "matplotlib.pyplot":
         return PltProxy()
+    if name == "scipy.sparse":
+        class _Sps:
+            def issparse(self, x):
+                return False
+        return _Sps()
     if name == "warnings":
         return _Warnings()
     if name == "itertools":
@@ -1788,6 +1893,8 @@ def _from_model(eng, modname, name):
         "hopcroftkarp.HopcroftKarp": HopcroftKarpModel,
         "sklearn.metrics": _Metrics(),
         "joblib.Parallel": _Parallel,
+        "scipy.sparse.csgraph.shortest_path": NeedsGhost("shortest_path"),
+        "scipy.sparse.csgraph.connected_components": NeedsGhost("connected_components"),
         "joblib.delayed": _Delayed,
         "scipy.optimize": _Optimize(),
         "operator.itemgetter": _Operator().itemgetter,
